@@ -1575,6 +1575,10 @@ dt_dtadd(struct dt_dt_s d, struct dt_dtdur_s dur)
 				dur.d.durtyp = DT_DURD;
 				dur.d.dv = carry;
 				goto dadd;
+			} else if (carry) {
+				/* no date to put them, leave a note of all
+				 * the midnights passed, as far as it goes */
+				d.t.carry = carry > 7 ? 7 : carry < -7 ? -7 : carry;
 			}
 		}
 		break;
